@@ -156,7 +156,7 @@ func (Engine) Gen(seed uint64, idx int, tier string) interface{} {
 	id := 0
 	closes := 0
 	kinds := []string{"run", "run", "run", "modinit", "modsrc", "regmod", "resolve", "runfile", "close", "close", "modsrc-bad", "modbuf-bad", "modbuf-notcode"}
-	nests := []string{"", "", "cb:0", "cb:1", "cb:2", "src:srca", "src:srcb", "exec", "raise", "badsrc", "src:nosuch"}
+	nests := []string{"", "", "cb:0", "cb:1", "cb:2", "src:srca", "src:srcb", "exec", "raise", "badsrc", "src:nosuch", "panicimport"}
 	for t := 0; t < nt; t++ {
 		var ts TaskSpec
 		no := 1 + r.Intn(3)
@@ -362,6 +362,11 @@ func bodySrc(op Op) string {
 		b.WriteString("    raise ValueError('boom')\n")
 	case op.Nested == "badsrc":
 		b.WriteString("    import bad\n")
+	case op.Nested == "panicimport":
+		// sys.path rebound to a tuple makes the resolver's type assertion panic
+		// (a Go panic that escapes to the embedder: outside C09, tolerated here);
+		// what C09 does require is that the context can still be closed afterwards
+		b.WriteString("    import sys\n    sys.path = (\"/simcwd/lib\",)\n    import nosuchpanic\n")
 	}
 	fmt.Fprintf(&b, "finally:\n    simhost.mark('e', %d)\n", op.ID)
 	return b.String()
@@ -456,6 +461,7 @@ func (e Engine) Exec(sci interface{}, opt harness.ExecOpts) *harness.Outcome {
 		ret      int64
 		err      error
 		returned bool
+		panicked string
 	}
 	results := map[int]*reqResult{}
 	for ti, t := range sc.Tasks {
@@ -488,26 +494,35 @@ func (e Engine) Exec(sci interface{}, opt harness.ExecOpts) *harness.Outcome {
 					results[op.ID] = rr
 					rr.invoke = r.ev("req.invoke", op.ID, op.Kind)
 					var err error
-					switch op.Kind {
-					case "run":
-						_, err = ctx.RunCode(codes[op.ID], mainMod.Globals, mainMod.Globals, nil)
-					case "modinit":
-						_, err = ctx.ModuleInit(&py.ModuleImpl{Info: py.ModuleInfo{Name: fmt.Sprintf("mi%d", op.ID)}, Code: codes[op.ID]})
-					case "modsrc":
-						_, err = ctx.ModuleInit(&py.ModuleImpl{Info: py.ModuleInfo{Name: fmt.Sprintf("ms%d", op.ID)}, CodeSrc: srcs[op.ID]})
-					case "modsrc-bad":
-						_, err = ctx.ModuleInit(&py.ModuleImpl{Info: py.ModuleInfo{Name: fmt.Sprintf("mb%d", op.ID)}, CodeSrc: "def (:\n"})
-					case "modbuf-bad":
-						_, err = ctx.ModuleInit(&py.ModuleImpl{Info: py.ModuleInfo{Name: fmt.Sprintf("mb%d", op.ID)}, CodeBuf: []byte{0xff, 0x00, 0x01}})
-					case "modbuf-notcode":
-						_, err = ctx.ModuleInit(&py.ModuleImpl{Info: py.ModuleInfo{Name: fmt.Sprintf("mb%d", op.ID)}, CodeBuf: []byte{'N'}})
-					case "regmod":
-						_, err = ctx.ModuleInit(py.GetModuleImpl("simcb" + op.Path))
-					case "resolve":
-						_, err = ctx.ResolveAndCompile(op.Path, py.CompileOpts{UseSysPaths: true})
-					case "runfile":
-						_, err = py.RunFile(ctx, op.Path, py.CompileOpts{UseSysPaths: true}, fmt.Sprintf("rf%d", op.ID))
-					}
+					func() {
+						// the embedder recovers a panic of a request and carries on
+						defer func() {
+							if p := recover(); p != nil {
+								rr.panicked = fmt.Sprint(p)
+								err = fmt.Errorf("panic: %v", p)
+							}
+						}()
+						switch op.Kind {
+						case "run":
+							_, err = ctx.RunCode(codes[op.ID], mainMod.Globals, mainMod.Globals, nil)
+						case "modinit":
+							_, err = ctx.ModuleInit(&py.ModuleImpl{Info: py.ModuleInfo{Name: fmt.Sprintf("mi%d", op.ID)}, Code: codes[op.ID]})
+						case "modsrc":
+							_, err = ctx.ModuleInit(&py.ModuleImpl{Info: py.ModuleInfo{Name: fmt.Sprintf("ms%d", op.ID)}, CodeSrc: srcs[op.ID]})
+						case "modsrc-bad":
+							_, err = ctx.ModuleInit(&py.ModuleImpl{Info: py.ModuleInfo{Name: fmt.Sprintf("mb%d", op.ID)}, CodeSrc: "def (:\n"})
+						case "modbuf-bad":
+							_, err = ctx.ModuleInit(&py.ModuleImpl{Info: py.ModuleInfo{Name: fmt.Sprintf("mb%d", op.ID)}, CodeBuf: []byte{0xff, 0x00, 0x01}})
+						case "modbuf-notcode":
+							_, err = ctx.ModuleInit(&py.ModuleImpl{Info: py.ModuleInfo{Name: fmt.Sprintf("mb%d", op.ID)}, CodeBuf: []byte{'N'}})
+						case "regmod":
+							_, err = ctx.ModuleInit(py.GetModuleImpl("simcb" + op.Path))
+						case "resolve":
+							_, err = ctx.ResolveAndCompile(op.Path, py.CompileOpts{UseSysPaths: true})
+						case "runfile":
+							_, err = py.RunFile(ctx, op.Path, py.CompileOpts{UseSysPaths: true}, fmt.Sprintf("rf%d", op.ID))
+						}
+					}()
 					rr.err = err
 					rr.returned = true
 					d := "ok"
@@ -542,6 +557,24 @@ func (e Engine) Exec(sci interface{}, opt harness.ExecOpts) *harness.Outcome {
 	if res.Capped {
 		out.Violate("I2-no-quiescence", "capped", "run did not quiesce within 60000 steps")
 	}
+	hasPanicImport := false
+	for _, t := range sc.Tasks {
+		for _, op := range t.Ops {
+			if op.Nested == "panicimport" {
+				hasPanicImport = true
+			}
+		}
+	}
+	for id, rr := range results {
+		if rr.panicked == "" {
+			continue
+		}
+		if hasPanicImport && strings.Contains(rr.panicked, "is py.Tuple, not *py.List") {
+			out.Probe("recovered_resolver_panic")
+			continue // the tolerated out-of-scope panic (sys.path is not a list)
+		}
+		out.Violate("I1-panic", "panic|"+panicSig(rr.panicked), "request %d (%s) panicked: %s", id, rr.op.Kind, rr.panicked)
+	}
 	inflight := map[int]bool{}
 	firstCloseRet, firstCB, doneAt := int64(0), int64(0), int64(0)
 	cbCount := map[int]int{}
@@ -552,6 +585,12 @@ func (e Engine) Exec(sci interface{}, opt harness.ExecOpts) *harness.Outcome {
 	for _, ev := range r.events {
 		switch ev.Kind {
 		case "body.start":
+			if rr := results[ev.ID]; rr != nil && rr.panicked != "" {
+				// a request that ends in a (tolerated) Go panic has no body.end
+				// marker: the moment its frames were unwound is not observable
+				// to the harness, so it is not tracked as executing
+				break
+			}
 			inflight[ev.ID] = true
 			if firstCloseRet > 0 {
 				out.Violate("I3-body-after-close-returned", "body-after-close", "body of request %d started (seq %d) after Close returned (seq %d)", ev.ID, ev.Seq, firstCloseRet)
@@ -572,6 +611,10 @@ func (e Engine) Exec(sci interface{}, opt harness.ExecOpts) *harness.Outcome {
 			} else if firstCB > 0 {
 				out.Violate("I6-admitted-after-callbacks", "fs-after-callback", "the resolver accessed the file system (seq %d) after the close callbacks began (seq %d)", ev.Seq, firstCB)
 			}
+		case "req.return":
+			// a request that has returned (normally, with an error, or through a
+			// panic the embedder recovered) is no longer executing
+			delete(inflight, ev.ID)
 		case "close.invoke":
 			closeInvoked = true
 			closeOpen[ev.ID] = ev.Seq
